@@ -251,3 +251,75 @@ def named_serdes(chk, prefix):
                     goal = k == "val" and len(js) == 1 and js[0].name == want and len(js[0].args) == 1 and js[0].args[0] is arg and not js[0].kwargs and v is js[0].result
                     desc = f"JsonSerDes.{m} is exactly {want}(argument) with default flags: the round trip of an invoke payload / result is json.loads(json.dumps(x)) (assumption S)"
                 chk.prove(f"{prefix}.serdes.{cname}.{m}", s.pc, z3.BoolVal(bool(goal)), desc=desc)
+
+
+def small_models(chk, prefix):
+    """Small constructors and accessors that the larger contracts pass through without looking at: each is held to 'stores / returns exactly what it was given'"""
+    from pyvc.engine import Engine
+    from pyvc.state import St
+    from pyvc.values import ClassRef, OpaqueFn, Ref, enum_member, fresh
+    eng = Engine()
+    P = eng.program
+    # execution.DurableExecutionInvocationInputWithClient.from_durable_execution_invocation_input
+    wc = P.cls("execution.DurableExecutionInvocationInputWithClient")
+    m = wc.find_method("from_durable_execution_invocation_input")
+    if m is not None:
+        chk.function("execution.DurableExecutionInvocationInputWithClient.from_durable_execution_invocation_input")
+        st = St()
+        ies = st.alloc(P.cls("execution.InitialExecutionState"), {"operations": st.alloc("list", {"__kind__": "list", "items": ()}), "next_marker": fresh("str", "marker")})
+        inp = st.alloc(P.cls("execution.DurableExecutionInvocationInput"), {"durable_execution_arn": fresh("str", "arn"), "checkpoint_token": fresh("str", "token"), "initial_execution_state": ies})
+        client = st.alloc("opaque:ServiceClient", {})
+        for k, v, s in eng.run(m, [inp, client], st=st):
+            ok = k == "val" and isinstance(v, Ref) and v.cls is wc
+            if ok:
+                a, b = s.get(inp), s.get(v)
+                ok = b["durable_execution_arn"] is a["durable_execution_arn"] and b["checkpoint_token"] is a["checkpoint_token"] and b["initial_execution_state"] == ies and b["service_client"] == client
+            chk.prove(f"{prefix}.models.input_with_client", s.pc, z3.BoolVal(bool(ok)), desc="the invocation input handed to the wrapper with a client keeps the ARN, the checkpoint token and the initial state object of the parsed input")
+    # lambda_service.ErrorObject.from_message
+    eo = P.cls("lambda_service.ErrorObject")
+    if eo.find_method("from_message") is not None:
+        chk.function("lambda_service.ErrorObject.from_message")
+        msg = fresh("str", "message")
+        for k, v, s in eng.run(eo.find_method("from_message"), [ClassRef(eo), msg], st=St()):
+            ok = k == "val" and isinstance(v, Ref) and s.get(v)["message"] is msg and all(s.get(v)[f_] is None for f_ in ("type", "data", "stack_trace"))
+            chk.prove(f"{prefix}.models.error_from_message", s.pc, z3.BoolVal(bool(ok)), desc="ErrorObject.from_message(m) carries m as the message and nothing else")
+    # exceptions: NonDeterministicExecutionError / GetExecutionStateError keep message and termination reason
+    for cname, reason, extra in (("NonDeterministicExecutionError", "NON_DETERMINISTIC_EXECUTION", {"step_id": fresh("str", "step_id")}), ("GetExecutionStateError", "INVOCATION_ERROR", {})):
+        c = P.cls("exceptions." + cname)
+        chk.function(f"exceptions.{cname}.__init__")
+        msg = fresh("str", "message")
+        for k, v, s in eng.construct(c, [msg], dict(extra), St()):
+            ok = k == "val" and isinstance(v, Ref)
+            goal = z3.BoolVal(ok)
+            if ok:
+                stor = s.get(v)
+                tr = stor.get("termination_reason")
+                goal = z3.And(goal, z3.BoolVal(tr is not None), ops.values_equal(s, tr, enum_member(P.cls("exceptions.TerminationReason"), reason)) if tr is not None else F,
+                              ops.values_equal(s, eng.exc_message(v, s), msg) if eng.exc_message(v, s) is not None else F,
+                              *[z3.BoolVal(stor.get(f_) is val) for f_, val in extra.items()])
+            chk.prove(f"{prefix}.models.exception_fields.{cname}", s.pc, goal, desc=f"{cname}(message, ...) keeps the message, its own fields, and the termination reason {reason}")
+    # ExecutableWithState accessors
+    ews = P.cls("concurrency.models.ExecutableWithState")
+    bs = P.cls("concurrency.models.BranchStatus")
+    st = St()
+    fut_none = z3.Bool("future.is_none")
+    fut = st.alloc("opaque:Future", {})
+    status = fresh("enum", "status", bs)
+    fn = OpaqueFn("branch_func")
+    exe = st.alloc(ews, {"_status": status, "_future": mk_opt(fut_none, fut), "_suspend_until": None, "_result": None, "_is_result_set": False, "_error": None,
+                         "executable": st.alloc(P.cls("concurrency.models.Executable"), {"index": fresh("int", "index"), "func": fn})})
+    for name in ("future", "is_running", "callable"):
+        if ews.find_method(name) is None:
+            continue
+        chk.function(f"concurrency.models.ExecutableWithState.{name}")
+        for k, v, s in eng.getattr_(exe, name, st.fork()):
+            if name == "future":
+                goal = z3.And(z3.Not(fut_none), z3.BoolVal(strip_opt(v) == fut)) if k == "val" else fut_none
+                desc = "ExecutableWithState.future is the stored future, and raises (InvalidStateError) only when the branch was never started"
+            elif name == "is_running":
+                goal = (zbool(v) if not isinstance(v, bool) else z3.BoolVal(v)) == (status.t == enum_sort(bs)[1]["RUNNING"]) if k == "val" else F
+                desc = "is_running is True exactly in status RUNNING"
+            else:
+                goal = z3.BoolVal(k == "val" and v is fn)
+                desc = "callable is the branch's function"
+            chk.prove(f"{prefix}.models.executable.{name}", s.pc, goal, desc=desc)
